@@ -43,7 +43,8 @@ def service_case(draw, auto):
                                span=draw(netgen.span_entry(max_length=150, eol=0))))
     chain_kw = {'spans': (1, 2), 'fiber_kw': {'lumped': False, 'per_freq_loss': False, 'overrides': True},
                 'length_km': None}
-    topo, truth = draw(netgen.topology(eq, n=(2, 3), extra_max=1, chain_kw=chain_kw, per_degree=False))
+    topo, truth = draw(netgen.topology(eq, n=(2, 3), extra_max=1, chain_kw=chain_kw, per_degree=False,
+                                       per_degree_impairments=True))
     src = draw(st.integers(0, truth['n'] - 1))
     dst = draw(st.integers(0, truth['n'] - 2))
     if dst >= src:
@@ -84,13 +85,18 @@ def mode_tables(mode):
     return out
 
 
-def add_drop_osnr(eq_json, roadm_el, kind, freqs):
-    """per-channel OSNR contribution of an add or drop crossing by the documented precedence"""
+def add_drop_osnr(eq_json, roadm_el, kind, freqs, from_uid=None, to_uid=None):
+    """per-channel OSNR contribution of an add or drop crossing by the documented precedence: the profile named for
+    this (from, to) crossing on the element, else the first library profile of that path type, else add_drop_osnr + 3 dB"""
     variety = roadm_el.get('type_variety', 'default')
     entry = next(r for r in eq_json['Roadm'] if r.get('type_variety', 'default') == variety)
     key = {'add': 'roadm-add-path', 'drop': 'roadm-drop-path'}[kind]
+    wanted = None
+    for e in roadm_el.get('params', {}).get('per_degree_impairments', []):
+        if e['from_degree'] == from_uid and e['to_degree'] == to_uid:
+            wanted = e['impairment_id']
     for prof in entry.get('roadm-path-impairments', []):
-        if key in prof:
+        if key in prof and (wanted is None or prof['roadm-path-impairments-id'] == wanted):
             out = []
             for f in freqs:
                 v = None
@@ -134,8 +140,13 @@ def check_receiver(ctx, case, eq_json, mode, path, direction):
     n = len(rx.snr_01nm)
     fmin = eq_json['Transceiver'][0]['frequency']['min']
     freqs = [fmin + case['spacing'] * i for i in range(1, n + 1)]
-    add = add_drop_osnr(eq_json, el_json[roadms[0].uid], 'add', freqs)
-    drop = add_drop_osnr(eq_json, el_json[roadms[-1].uid], 'drop', freqs)
+    uids = [e.uid for e in path]
+    i0, i1 = uids.index(roadms[0].uid), uids.index(roadms[-1].uid)
+    add = add_drop_osnr(eq_json, el_json[roadms[0].uid], 'add', freqs, uids[i0 - 1], uids[i0 + 1])
+    drop = add_drop_osnr(eq_json, el_json[roadms[-1].uid], 'drop', freqs, uids[i1 - 1], uids[i1 + 1])
+    if el_json[roadms[0].uid].get('params', {}).get('per_degree_impairments') or \
+            el_json[roadms[-1].uid].get('params', {}).get('per_degree_impairments'):
+        ctx.label('per-degree-impairment-ids')
     raw = np.asarray(rx.raw_snr_01nm, dtype=float)
     own = []
     for i in range(n):
